@@ -90,7 +90,10 @@ def scan_assumptions(gen_text, linemap):
                 if mm:
                     name = norm(mm.group(1))
                     break
-            found.append(dict(what=m.group(1).rstrip('( '), tag=tag, origin=origin, line=oline, name=name))
+            what = m.group(1).rstrip('( ')
+            if '/*@CASE_CUT*/' in ln:
+                what = 'case-split-cut'      # assume(false) in a copy whose arm is proved in a sibling copy
+            found.append(dict(what=what, tag=tag, origin=origin, line=oline, name=name))
         pos += len(ln) + 1
     return found
 
